@@ -249,4 +249,11 @@ def selftest():
         V("apply-fn-drops", UPD, "        p.updated_step_fns + (updated_fn,) if updated_fn else p.updated_step_fns + (fn,)", "        p.updated_step_fns + (updated_fn,) if updated_fn else p.updated_step_fns", rule="DU.threading"),
         V("external-clock-writer", "nrel/hive/state/simulation_state/update/cancel_requests.py", "        return updated, None", "        return updated._replace(sim_time=updated.sim_time), None", rule="WMC.writers"),
         V("twin-step-mirror", LSR, "        if runner_payload.s.sim_time >= runner_payload.e.config.sim.end_time:", "        if not (runner_payload.s.sim_time < runner_payload.e.config.sim.end_time):", kind="twin"),
-    ]
+    ] + _auto()
+
+
+def _auto():
+    from ..loader import Repo
+    from .. import autovariants as av
+    return av.compare_variants(Repo(), [(LSR, "LocalSimulationRunner.step")])
+
